@@ -237,6 +237,20 @@ def a3_terminal_parity(ck):
     v1_bypass(ck)
 
 
+def _is_square_term(prog, body, t):
+    """Does the key of a table lookup denote a Square (a Square-typed parameter, or the result of a Square-returning board function)?"""
+    if t[0] == "param":
+        return body.local_ty(t[1]).endswith("board::Square")
+    if t[0] == "agg":
+        return str(t[1]).endswith("board::Square::Square")
+    if t[0] == "call":
+        cb = prog.bodies.get(t[1])
+        if cb is not None:
+            return cb.local_ty(0).endswith("board::Square")
+        return t[1].endswith("From<T>>::from") or t[1] == "core::convert::Into::into"
+    return False
+
+
 def t1_piece_square_mirror(ck):
     prog = ck.prog
     b = ck.body(EV + "evaluate_piece_squares::evaluate_piece_square", "T1")
@@ -271,6 +285,9 @@ def t1_piece_square_mirror(ck):
                 if len(rest) == 1:
                     colour = rest[0]
         idxs = [e[2][1] for e in p.effects if e[0] == "call" and e[1] == "weechess_core::utils::ArrayMap::<I, T>::index"]
+        # tables keyed by Square (`table[square]`): the slot is the square's own index
+        idxs += [e[2][1] for e in p.effects if e[0] == "call" and e[1] == "<weechess_core::utils::ArrayMap<I, T> as core::ops::index::Index<I>>::index" and
+                 len(e[2]) == 2 and _is_square_term(prog, b, e[2][1])]
         if colour and idxs:
             idx_by_colour.setdefault(colour, []).extend(idxs)
     ck.req(set(idx_by_colour) == {"White", "Black"}, "T1.paths", "evaluate_piece_square", b.where(), "cannot separate the White and Black paths of the piece-square lookup (%s)" % sorted(idx_by_colour))
